@@ -23,6 +23,7 @@ ASSUMPTIONS = [
     "NEN eliminated sets contain neither the assertion's candidate nor all other candidates",
 ]
 CANDS = ["1", "2", "3", "4", "5", "6"]
+CANDS_MULTI = ["1", "12", "11", "2", "21", "112"]   # identifiers of different lengths sharing prefixes (real ids are like this)
 
 
 def shards(tier):
@@ -38,7 +39,7 @@ def strategy(shard):
 
     @st.composite
     def case(draw):
-        cands = CANDS[:n]
+        cands = (CANDS_MULTI if draw(st.booleans()) else CANDS)[:n]
         winner = draw(st.sampled_from(cands))
         root = draw(st.sampled_from([c for c in cands if c != winner]))
         mode = draw(st.sampled_from(["random", "from-order", "from-order", "dense"]))
